@@ -175,6 +175,19 @@ func apply(real *metrics.Metric, mod *model, o op) string {
 		if i := mod.find(o.Tuple); i >= 0 {
 			mod.entries = append(mod.entries[:i:i], mod.entries[i+1:]...)
 		}
+	case "remove-oldest":
+		// the limit-enforcement path of GC: drops the live tuple with the
+		// earliest timestamp (the first such in enumeration order)
+		real.RemoveOldestDatum()
+		oi := -1
+		for i, e := range mod.entries {
+			if oi < 0 || e.ts < mod.entries[oi].ts {
+				oi = i
+			}
+		}
+		if oi >= 0 {
+			mod.entries = append(mod.entries[:oi:oi], mod.entries[oi+1:]...)
+		}
 	case "expire":
 		err := real.ExpireDatum(time.Duration(o.D), o.Tuple...)
 		if wrongArity {
@@ -426,6 +439,9 @@ func randOp(rng *ev.RNG, s metricSpec) op {
 		}
 	case k < 8:
 		o.Kind = "remove"
+		if rng.Intn(3) == 0 {
+			o.Kind = "remove-oldest"
+		}
 	default:
 		o.Kind = "expire"
 		o.D = ev.PickOne(rng, durs)
@@ -456,7 +472,7 @@ func runSeq(s metricSpec, ops []op) (int, string) {
 func TestC09(t *testing.T) {
 	r := ev.Start(t, "C09", "exploration")
 	defer r.Finish()
-	r.Rule("operation sequences (get-or-create, set/inc/dec/observe with explicit timestamps, remove, expire, wrong-arity variants) applied to a real Metric and to an insertion-ordered reference list; after every op the LabelValues slice, the index (FindLabelValueOrNil for every universe tuple), EmitLabelSets and (every 4th op) JSON are compared. Non-trivial: the sequence contains a removal of a present tuple followed later by a creation, or an expiry mark on a present tuple; distinct by op-sequence text.")
+	r.Rule("operation sequences (get-or-create, set/inc/dec/observe with explicit timestamps, remove, remove-oldest, expire, wrong-arity variants) applied to a real Metric and to an insertion-ordered reference list; after every op the LabelValues slice, the index (FindLabelValueOrNil for every universe tuple), EmitLabelSets and (every 4th op) JSON are compared. Non-trivial: the sequence contains a removal of a present tuple followed later by a creation, or an expiry mark on a present tuple; distinct by op-sequence text.")
 	r.Assume("creation timestamp of a fresh datum is learnt from the real side (not specified)", "JSON marshalling of non-finite floats is C22's subject and skipped here")
 
 	// exhaustive part: all sequences up to length L over a 2-tuple universe, per value type
@@ -481,7 +497,7 @@ func TestC09(t *testing.T) {
 		if s.arity == 1 {
 			wrong = []string{"x", "y"}
 		}
-		alphabet = append(alphabet, op{Kind: "get", Tuple: wrong}, op{Kind: "remove", Tuple: wrong}, op{Kind: "expire", Tuple: wrong, D: 1})
+		alphabet = append(alphabet, op{Kind: "get", Tuple: wrong}, op{Kind: "remove", Tuple: wrong}, op{Kind: "expire", Tuple: wrong, D: 1}, op{Kind: "remove-oldest", Tuple: ts[0]})
 		total := 1
 		for i := 0; i < L; i++ {
 			total *= len(alphabet)
@@ -500,7 +516,7 @@ func TestC09(t *testing.T) {
 		})
 		r.Count("exhaustive_sequences", total)
 	}
-	r.Set("exhaustive_part", fmt.Sprintf("all sequences of length %d (prefix-closed: every shorter sequence is a prefix) over {get,update,remove,expire}x2 tuples + 3 wrong-arity ops, for Counter/Int, Histogram/Buckets, Gauge/Float", L))
+	r.Set("exhaustive_part", fmt.Sprintf("all sequences of length %d (prefix-closed: every shorter sequence is a prefix) over {get,update,remove,expire}x2 tuples + 3 wrong-arity ops + remove-oldest, for Counter/Int, Histogram/Buckets, Gauge/Float", L))
 
 	n := ev.Pick(6000, 400000)
 	rng := ev.NewRNG(ev.Seed(), "c09")
@@ -527,6 +543,8 @@ func TestC09(t *testing.T) {
 			}
 			k := strings.Join(o.Tuple, "\x00")
 			switch o.Kind {
+			case "remove-oldest":
+				r.Count("remove_oldest_ops", 1)
 			case "remove":
 				if present[k] {
 					removed[k] = true
